@@ -32,7 +32,7 @@ def prep(rng):
     return dict(code=rng.choice(CODES))
 
 
-PC_FAMILY = ('ldm', 'pop', 'ls', 'dp', 'ldm_eret')
+PC_FAMILY = ('ldm', 'pop', 'ls', 'dp', 'adr', 'ldm_eret')
 
 
 def pc_operand(row, rng):
@@ -47,7 +47,7 @@ def pc_operand(row, rng):
         return {'P': 1}
     if row.sem and row.sem.startswith('ls') and 't' in f and len(f['t']) == 4:
         return {'t': 15}
-    if row.sem and row.sem.startswith('dp') and 'd' in f and len(f['d']) == 4:
+    if row.sem and row.sem.startswith(('dp', 'adr')) and 'd' in f and len(f['d']) == 4:
         return {'d': 15}
     return None
 
